@@ -192,3 +192,52 @@ static void op_psize(actor *a, int p)
     if ((sz == 0) != (empty == ABT_TRUE))
         viol("pool %d: get_size=%zu but is_empty=%d at a quiescent point", p, sz, (int)empty);
 }
+
+/* bulk move: pop up to n units from pool pa and push them all into pool pb with one
+ * ABT_pool_push_threads call (the units become associated with pb) */
+static void op_pmove(actor *a, int pa, int pb, int n)
+{
+    /* unnamed units cannot be identified by their handle: from now on no unit's
+     * start pool is predictable */
+    ASTORE(g_bulk_moves, 1);
+    ABT_thread ts[8];
+    size_t num = 0;
+    if (n > 8)
+        n = 8;
+    int rc = ABT_pool_pop_threads(G.pool[pa].h, ts, (size_t)n, &num);
+    if (rc == ABT_ERR_POOL && G.pool[pa].kind >= 3) {
+        /* the user pool does not implement pop_many: documented error */
+        num = 0;
+        while ((int)num < n) {
+            ABT_thread t = ABT_THREAD_NULL;
+            rc = ABT_pool_pop_thread(G.pool[pa].h, &t);
+            CHECK_RC(rc, "ABT_pool_pop_thread");
+            if (t == ABT_THREAD_NULL)
+                break;
+            ts[num++] = t;
+        }
+        rc = ABT_SUCCESS;
+    }
+    CHECK_RC(rc, "ABT_pool_pop_threads");
+    for (size_t i = 0; i < num; i++) {
+        int id = unit_of_thread(ts[i]);
+        if (id >= 0) {
+            G.unit[id].expect_pool = -1;
+            G.unit[id].cur_pool = pb;
+            G.unit[id].migr_pending = 1;
+        }
+    }
+    if (num) {
+        rc = ABT_pool_push_threads(G.pool[pb].h, ts, num);
+        if (rc == ABT_ERR_POOL && G.pool[pb].kind >= 3) {
+            /* no push_many in the user pool: nothing was pushed; push one by one */
+            for (size_t i = 0; i < num; i++) {
+                rc = ABT_pool_push_thread(G.pool[pb].h, ts[i]);
+                CHECK_RC(rc, "ABT_pool_push_thread");
+            }
+        }
+        CHECK_RC(rc, "ABT_pool_push_threads");
+        stat_add("bulk_moved_units", (long)num);
+    }
+    (void)a;
+}
